@@ -4,7 +4,9 @@
 //   - the BM25 parameters k, b (the `k, b := 1.2, 0.75` assignments of score.go, which must agree),
 //   - the arguments of the boostNovelExtension call in SortFiles,
 //   - a bound of scoreSymbolKind's factor (largest `factor = <lit>` + the `factor += <lit>`s, times `factor *= <lit>` > 1),
-//   - the epsilon of epsilonEqualsOne (index/bits.go).
+//   - the epsilon of epsilonEqualsOne (index/bits.go),
+//   - maxBoostWeight (index/score.go), the cap setScoreWeight applies to the product of the boosts above a
+//     match, as the exact value of the binary64 constant the compiled code compares against.
 // Usage: go run main.go <repo-root>   (prints the Coq file on stdout)
 package main
 
@@ -14,6 +16,7 @@ import (
 	"go/constant"
 	"go/parser"
 	"go/token"
+	"math/big"
 	"os"
 	"path/filepath"
 	"sort"
@@ -93,6 +96,32 @@ func main() {
 				}
 			}
 		}
+	}
+	// maxBoostWeight: an untyped constant used as a float64 -> its binary64 rounding, exactly
+	maxBoost := ""
+	for _, d := range sc.Decls {
+		gd, ok := d.(*ast.GenDecl)
+		if !ok || gd.Tok != token.CONST {
+			continue
+		}
+		for _, s := range gd.Specs {
+			vs := s.(*ast.ValueSpec)
+			for i, n := range vs.Names {
+				if n.Name == "maxBoostWeight" && i < len(vs.Values) {
+					if v, ok := litVal(vs.Values[i]); ok {
+						f, _ := constant.Float64Val(constant.ToFloat(v))
+						var r big.Rat
+						if r.SetFloat64(f) == nil {
+							must(fmt.Errorf("maxBoostWeight is not a finite float64"))
+						}
+						maxBoost = fmt.Sprintf("(%s # %s)", r.Num().String(), r.Denom().String())
+					}
+				}
+			}
+		}
+	}
+	if maxBoost == "" {
+		must(fmt.Errorf("constant maxBoostWeight (cap of the boost weight, index/score.go) not found as a literal const"))
 	}
 	for n := range want {
 		if _, ok := got[n]; !ok {
@@ -243,5 +272,6 @@ func main() {
 	fmt.Fprintf(&b, "Definition c_boostOffset : nat := %s%%nat.\nDefinition c_minScoreRatio : Q := %s.\n", boostOff, boostRatio)
 	fmt.Fprintf(&b, "Definition c_maxKindFactor : Q := %s.\n", ratOf(maxFactor))
 	fmt.Fprintf(&b, "Definition c_epsilon : Q := %s.\n", eps)
+	fmt.Fprintf(&b, "Definition c_maxBoostWeight : Q := %s.\n", maxBoost)
 	fmt.Print(b.String())
 }
